@@ -384,6 +384,8 @@ def expr_local(fn, l, depth=10):
     if k == "agg":
         if rv["agg"] == "adt":
             return ("adt", rv["adt"], rv["variant"], tuple(expr_operand(fn, o, depth - 1) for o in rv["ops"]))
+        if rv["agg"] == "closure":
+            return ("closure", rv["def"], tuple(expr_operand(fn, o, depth - 1) for o in rv["ops"]))
         return ("agg", rv["agg"], tuple(expr_operand(fn, o, depth - 1) for o in rv["ops"]))
     return ("rv", k)
 
@@ -442,6 +444,8 @@ def expr_str(e):
         return "%s::%s(%s)" % (e[1].split("::")[-1], e[2], ", ".join(expr_str(a) for a in e[3]))
     if k == "agg":
         return "%s(%s)" % (e[1], ", ".join(expr_str(a) for a in e[2]))
+    if k == "closure":
+        return "closure %s[%s]" % (e[1], ", ".join(expr_str(a) for a in e[2]))
     return str(e)
 
 
